@@ -26,7 +26,7 @@ structure Op where
   meth : String
   nonce : Int
   ctype : Int
-  tagged : Bool
+  tagged : Int
   idx : Nat
 deriving Repr
 
@@ -60,11 +60,11 @@ def reqFrame (h : H) (ep : Nat) (nonce : Int) : Option (Nat × FrameInfo) :=
 
 /-- index of the first close / cut event (history length when none) -/
 def firstFault (h : H) : Nat :=
-  match (idxd h).find? (fun (_, e) => match e with | .clb _ _ => true | .cut _ => true | _ => false) with
+  match (idxd h).find? (fun (_, e) => match e with | .clb _ _ => true | .cut _ => true | .wrf _ _ => true | _ => false) with
   | some (i, _) => i
   | none => h.length
 
-/-- a session in which nothing was closed or cut before it settled -/
+/-- a session in which nothing was closed or cut, and no Write failed, before it settled -/
 def undisturbed (h : H) : Bool := decide (settledAt h ≤ firstFault h)
 
 def kindName : Kind → String
@@ -94,7 +94,7 @@ def c03 (max : Nat) (h : H) : List String :=
 
 /-! ### C01 — own invocation, own reply, exactly once -/
 
-def invocations (h : H) : List (Nat × Nat × Nat × String × Int × Bool) :=
+def invocations (h : H) : List (Nat × Nat × Nat × String × Int × Int) :=
   (idxd h).filterMap fun (i, e) => match e with
     | .iv ep hd m n tg => some (i, ep, hd, m, n, tg)
     | _ => none
@@ -110,7 +110,8 @@ def c01 (h : H) : List String :=
   -- every invocation belongs to exactly one issued request, with its method, argument and tags
   (ivs.filterMap fun (_, ep, _, m, n, tg) =>
     match os.find? (fun o => o.nonce = n) with
-    | none => some "C01:invocation-without-request"
+    | none => if 7000 ≤ n ∧ n < 10000 then none   -- a request injected by the scripted peer, not by a caller
+              else some "C01:invocation-without-request"
     | some o =>
       if o.ep + ep ≠ 1 then some "C01:invoked-on-wrong-endpoint"
       else if o.meth ≠ m then some "C01:invoked-wrong-method"
@@ -246,7 +247,19 @@ def c10 (h : H) : List String :=
           | .cle ep' who' => decide (j > i) && ep' == ep && who' == who | _ => false)
       then none else some "C10:close-never-returned"
     | .stuck _ site => some ("C10:stuck:" ++ site)
-    | _ => none)
+    | _ => none) ++
+  -- a Write that fails while the connection stays up is reported to its own sender only: notifications (which
+  -- only send) issued around it still return before the session settles
+  (let st := settledAt h
+   let wfailed := h.any fun e => match e with | .wrf _ _ => true | _ => false
+   let closed := (idxd h).any fun (i, e) => match e with | .clb _ _ => decide (i < st) | .cut _ => decide (i < st) | _ => false
+   if wfailed ∧ ¬ closed then
+     (ops h).filterMap fun o =>
+       if o.kind != .notify then none else
+       match endOf h o.c with
+       | some (i, _, _) => if i < st then none else some "C10:send-blocked-after-write-error"
+       | none => some "C10:send-blocked-after-write-error"
+   else [])
 
 /-! ### C11 — everything released -/
 
@@ -278,6 +291,7 @@ def lookupIndexOf (h : H) (ep : Nat) (seq : Int) : Option Nat :=
 
 def c12 (h : H) : List String :=
   h.filterMap fun e => match e with
+    | .lateo _ => some "C12:late-write:reply-after-return-found-the-call-in-the-table"
     | .late c =>
       let ep := match (ops h).find? (fun o => o.c = c) with | some o => o.ep | none => 0
       let dup := h.any fun e' => match e' with | .inj ep' "dupresp" => ep' == ep | _ => false
@@ -300,10 +314,11 @@ def c12 (h : H) : List String :=
 /-! ### C13 — order, distinct seqnos, exact send notifier -/
 
 def snwr (h : H) (ep : Nat) : List Ev :=
-  h.filter fun e => match e with
-    | .sn ep' _ => ep' = ep
-    | .wr ep' _ => ep' = ep
-    | _ => false
+  h.filterMap fun e => match e with
+    | .sn ep' _ => if ep' = ep then some e else none
+    | .wr ep' _ => if ep' = ep then some e else none
+    | .wrf ep' f => if ep' = ep then some (.wr ep' f) else none   -- handed to the connection all the same
+    | _ => none
 
 def snPairs : List Ev → List String
   | [] => []
@@ -342,7 +357,7 @@ def typeName (k : Kind) (ctype : Int) : String :=
 
 def records (h : H) (ep : Nat) : List (String × Nat) :=
   h.filterMap fun e => match e with
-    | .recd ep' t s => if ep' = ep then some (t, s) else none
+    | .recd ep' t s _ => if ep' = ep then some (t, s) else none
     | _ => none
 
 def count (l : List String) (x : String) : Nat := (l.filter (· == x)).length
@@ -367,6 +382,7 @@ def c20 (h : H) : List String :=
       | _, _ => none
     let injected := (h.filterMap fun e => match e with
       | .inj ep' "nfcall" => if ep' = ep then some "Call p.nope" else none
+      | .inj ep' "nflate" => if ep' = ep then some "Call late.lecho" else none
       | _ => none) ++
       -- a call that raced the registration of its protocol and was answered "not found" is recorded by the server too
       (os.filterMap fun o =>
@@ -396,6 +412,29 @@ def c20 (h : H) : List String :=
           let dups := (h.filter fun e => match e with | .inj ep' "dupresp" => ep' == ep | _ => false).length
           if (List.range (dups + 1)).any (fun k => sizes.contains (rf.total + (k + 1) * pf.content)) then none
           else some "C20:size-differs"
+      | _, _ => none) ++
+    -- a call that ended by cancellation / timeout: when the table read for its reply (the k-th read of this
+    -- endpoint's receive loop belongs to the k-th response the peer wrote) precedes the moment the caller finishes
+    -- its record, the call is still in the table, the reply's size is added at once, and the record includes it
+    (if h.any (fun e => match e with | .inj ep' _ => ep' == ep | _ => false) then [] else
+     os.filterMap fun o =>
+      if o.ep ≠ ep ∨ !isCallKind o.kind then none else
+      match endOf h o.c, reqFrame h ep o.nonce with
+      | some (_, out, _), some (_, rf) =>
+        if out != .canceled && out != .deadline then none else
+        let resps := (writes h (1 - ep)).filter fun (_, f) => f.kind == .resp
+        match (List.range resps.length).find? (fun k => match resps[k]? with | some (_, f) => f.seq == rf.seq | none => false) with
+        | none => none
+        | some k =>
+          let lrs := (idxd h).filter fun (_, e) => match e with | .lr ep' => ep' == ep | _ => false
+          let t := typeName o.kind o.ctype ++ " " ++ fullMeth o.meth
+          let who := "@c" ++ toString o.c
+          match lrs[k]?, (idxd h).find? (fun (_, e) => match e with | .recd ep' t' _ w => ep' == ep && t' == t && w == who | _ => false),
+                resps[k]? with
+          | some (il, _), some (ir, .recd _ _ size _), some (_, pf) =>
+            if il < ir ∧ size ≠ rf.total + pf.content then some "C20:reply-received-before-the-record-was-finished-is-not-counted"
+            else none
+          | _, _, _ => none
       | _, _ => none)
 
 /-! ### C07 — lifecycle observers agree -/
@@ -441,7 +480,7 @@ def c07 (h : H) : List String :=
   -- not-found calls / notifications, stray responses and stray cancellations leave the traffic before and
   -- after them unaffected: with nothing but such frames injected, every ordinary monitor still holds
   (let benign := h.any fun e => match e with
-      | .inj _ k => k == "strayresp" || k == "straycancel" || k == "nfcall" || k == "nfnotify"
+      | .inj _ k => k == "strayresp" || k == "straycancel" || k == "nfcall" || k == "nfnotify" || k == "nflate"
       | _ => false
    if benign ∧ undisturbed h then
      (if (c10 h).isEmpty then [] else ["C07:traffic-blocked-after-notfound-or-stray-frame"]) ++
@@ -450,7 +489,15 @@ def c07 (h : H) : List String :=
      (if h.any (fun e => match e with | .regb _ => true | _ => false) ∧
          ¬ h.any (fun e => match e with | .rege _ => true | _ => false) then
         ["C07:protocol-registration-blocked-after-notfound-frame"] else [])
-   else [])
+   else []) ++
+  -- a call issued after the registration of its protocol had completed is served, whatever was asked for before
+  ((ops h).filterMap fun o =>
+    if o.meth != "lecho" then none else
+    match endOf h o.c with
+    | some (_, .notfound, _) =>
+      if (idxd h).any (fun (i, e) => match e with | .rege ep' => decide (ep' + o.ep = 1) && decide (i < o.idx) | _ => false)
+      then some "C07:call-to-a-registered-protocol-answered-not-found" else none
+    | _ => none)
 
 def harnessTrouble (h : H) : List String :=
   h.filterMap fun e => match e with
